@@ -101,6 +101,19 @@ class C10(PropBase):
             for k in ks:
                 add("blank-split", data, [str(k)])
             add("blank-lines", data, G.sched_line_starts(data))
+        # 1d. a second MODULE record at every position x every split point (the MODULE-first rule must not depend on chunking)
+        for data in G.module_again_files():
+            add("module-again", data)
+            for k in range(1, len(data)):
+                add("module-again-split", data, [str(k)])
+            add("module-again-lines", data, G.sched_line_starts(data))
+        # 1e. complete lines ending exactly at capacity/2 of a full window (+-1), then a line that does not fit
+        for data, sched, label in G.aligned_files():
+            add("aligned", data, sched, tag="ok")
+        # 1f. long free texts with multi-byte characters, split at a random point
+        for i, data in enumerate(G.free_text_files()):
+            if i % 2 == (0 if quick else i % 2):
+                add("free-text", data, [str(1 + rng.below(len(data) - 1))])
         # 2. grammar files under random small schedules (splits inside CRLF / sub-lines / CFI groups)
         for i in range(600 if quick else 8000):
             pbad = [0, 0, 0, 5, 20][rng.below(5)]
@@ -162,6 +175,8 @@ class C10(PropBase):
             return "callback received more bytes than the input has"
         if f["R"] == "OK" and cb != a["total"]:
             return "parse succeeded but the callback received %d of %d input bytes" % (cb, a["total"])
+        if a["tag"] == "ok" and f["R"] != "OK":
+            return "every line of this input is a valid record (over-long ones are to be dropped), yet streamed parsing fails with " + f["R"]
         lens = a["line_lens"] + ([a["tail"]] if a["tail"] else [])
         if all(n < G.HALF for n in lens) and f.get("eq") != "1":
             return ("all lines are shorter than 80 KiB, yet streamed parsing gives %s and whole-buffer parsing gives %s "
